@@ -811,7 +811,9 @@ def rules(tier):
             # C04-da: save_session writes cur_len, cur_ip in the other order than load_session reads them
             ('C04.R20', _shared_rule('c15', 'r3_pickle_layout')),
             # mutation sweep: create_guesses routing flipped
-            ('C04.R21', _shared_rule('plumbing', 'generator_glue'))] + _loader_bundle() + []
+            ('C04.R21', _shared_rule('plumbing', 'generator_glue')),
+            # mutation sweep: transitions of a base structure
+            ('C04.R22', _shared_rule('c14', 'r20_structure_tokeniser'))] + _loader_bundle() + []
 
 
 META = {
